@@ -661,6 +661,11 @@ be_socket_setfd(struct bufferevent *bufev, evutil_socket_t fd)
 
 	event_del(&bufev->ev_read);
 	event_del(&bufev->ev_write);
+	/* a connect() in progress belonged to the old descriptor (and
+	 * bufferevent_socket_connect() marks the attempt only after it has set
+	 * the new one): without this, reads on the new descriptor would wait
+	 * for a "connected" that nothing is going to report */
+	bufev_p->connecting = 0;
 
 	evbuffer_unfreeze(bufev->input, 0);
 	evbuffer_unfreeze(bufev->output, 1);
